@@ -88,6 +88,10 @@ def run(ctx):
     n = check_tailmove(ctx, prog)
     ctx.floor('R-TAILMOVE', n, 2)
 
+    # ---------------------------------------------------------------- a (re)allocated block records its capacity
+    n = check_capacity(ctx, prog)
+    ctx.floor('R-CAP allocating members', n, 10)
+
     # ---------------------------------------------------------------- thin wrappers
     n = 0
     for cls in ('asl::Stack', 'asl::Queue'):
@@ -262,6 +266,89 @@ def ptr_offset(f, e):
                 out[kk] = out.get(kk, 0) + vv
             return out, (to.get('sz') or 1)
     return None, None
+
+
+def check_capacity(ctx, prog):
+    """R-CAP: a member that obtains a block for k elements (malloc / realloc of k * sizeof(T) + header) records k in the
+    header's capacity field on every path to its exit.  CFG typestate with branch facts: a condition that was decided once
+    is decided the same way again while none of its variables has been written (`if (s1 != s)` twice in reserve())."""
+    n = 0
+    seen = set()
+    for f in prog.functions:
+        if f.get('clsp') != 'asl::Array' or not f.get('body') or f.get('implicit'):
+            continue
+        allocs = [e for e in fn_exprs(f) if e.get('k') == 'call' and e.get('fn') in ('malloc', 'realloc') and not e.get('clsp')]
+        if not allocs:
+            continue
+        inst = f['q']
+        if (f['pq'], f.get('sig')) in seen and ctx.tier != 'thorough':
+            pass
+        seen.add((f['pq'], f.get('sig')))
+        n += 1
+        ctx.analysed(f)
+        cfg = cfgm.CFG(f)
+
+        def count_var(call):
+            size = call['a'][-1]
+            lf = linear(f, size, None)
+            if lf is None:
+                return None
+            vs = [k_ for k_, c in lf.items() if k_ != 1 and c > 0]
+            return vs[0] if len(vs) == 1 else None
+        problems = []
+
+        def step(nd, st):
+            alloc, facts = st
+            if nd.kind == 'ev' and nd.e is not None:
+                e = nd.e
+                if e.get('k') == 'call' and e.get('fn') in ('malloc', 'realloc') and not e.get('clsp'):
+                    v = count_var(e)
+                    return (('alloc', v, e.get('l')), facts)
+                tgt = None
+                if e.get('k') == 'bin' and e.get('op', '').endswith('=') and e['op'] not in ('==', '!=', '<=', '>='):
+                    tgt = strip_lv(e['x'])
+                elif e.get('k') == 'un' and e.get('op') in ('post++', 'pre++', 'post--', 'pre--'):
+                    tgt = strip_lv(e['e'])
+                if tgt is not None and tgt.get('k') == 'var':
+                    facts = frozenset(x for x in facts if tgt['id'] not in x[2])
+                    return (alloc, facts)
+                if tgt is not None and tgt.get('k') == 'mem' and tgt.get('fq') == 'asl::Array::Data::s' and e.get('op') == '=' and alloc is not None and alloc[0] == 'alloc':
+                    val = linear(f, e['y'], None)
+                    if alloc[1] is None or val == {alloc[1]: 1}:
+                        return (('recorded',), facts)
+                    problems.append((e.get('l'), 'the capacity recorded (`%s`) is not the element count the block was allocated for' % pe(e['y'])))
+                    return (('recorded',), facts)
+            if nd.kind == 'decl' and nd.info.get('init') is not None:
+                pass
+            return st
+
+        def edge(nd, lab, st):
+            alloc, facts = st
+            if nd.kind == 'br' and lab in (True, False) and nd.e is not None:
+                key = pe(nd.e)
+                ids = frozenset(w['id'] for w in walk_expr(nd.e) if w.get('k') == 'var')
+                if any(w.get('k') in ('call', 'mem') for w in walk_expr(nd.e)):
+                    return st           # depends on memory: not a stable fact
+                for k_, v_, _ in facts:
+                    if k_ == key and v_ != lab:
+                        return None
+                return (alloc, facts | frozenset([(key, lab, ids)]))
+            return st
+        try:
+            reached, parent = cfgm.dataflow(cfg, (None, frozenset()), step, edge)
+        except RuntimeError as ex:
+            ctx.undecided('R-CAP', f['pq'], '%s%s:capacity recorded after allocation' % (f['n'], f['sig']), fwhere(f), str(ex))
+            continue
+        ctx.evaluations += sum(len(v) for v in reached.values())
+        role = '%s%s:capacity recorded after allocation' % (f['n'], f['sig'])
+        bad = [st for st in reached.get(cfg.exit.id, set()) if st[0] is not None and st[0][0] == 'alloc']
+        if problems:
+            ctx.violation('R-CAP', f['pq'], role, fwhere(f, problems[0][0]), problems[0][1] + ' (instantiation %s)' % inst)
+        elif bad:
+            ctx.violation('R-CAP', f['pq'], role, fwhere(f, bad[0][0][2]), 'a path returns after (re)allocating the block (line %s) without storing the new capacity in the header: later appends size the block from the stale capacity and write past it (instantiation %s)' % (bad[0][0][2], inst))
+        else:
+            ctx.ok('R-CAP', f['pq'], role, fwhere(f), 'every path from an allocation to the exit stores the capacity')
+    return n
 
 
 def check_tailmove(ctx, prog):
